@@ -105,6 +105,16 @@ func NewUnpackInfo(dst string, header *tar.Header) (UnpackInfo, error) {
 		return UnpackInfo{}, fmt.Errorf("failed creating %q, unsupported file type %c", path, result.Typeflag)
 	}
 
+	// A sparse file declares its size in pax records, of which the archive
+	// holds only the parts that are not holes: a few hundred bytes can stand
+	// for a file larger than any disk. Like the old GNU sparse type, which
+	// is refused above, these are not supported.
+	for key := range header.PAXRecords {
+		if strings.HasPrefix(key, "GNU.sparse.") {
+			return UnpackInfo{}, fmt.Errorf("failed creating %q, unsupported sparse file", path)
+		}
+	}
+
 	return result, nil
 }
 
